@@ -304,6 +304,40 @@ impl Prop for C12 {
                 },
             ));
         }
+        {
+            // every unit with all its source spellings, partner = the neighbouring unit of the same kind
+            let mut ops: Vec<(usize, String)> = Vec::new();
+            for (i, u) in UNITS.iter().enumerate() {
+                let (src, _) = units::spellings(u);
+                for s in src {
+                    ops.push((i, s));
+                }
+            }
+            let n_ops = ops.len();
+            f.push(Family::new(
+                "arith-spellings",
+                Mode::Full,
+                &format!("Q1 + Q2, Q1 - Q2 and Q1 / Q2 where Q1 runs over all {} (unit, source spelling) combinations, written apart ('12,5 Kilometer') or directly onto the word ('12,5km'), and Q2 is the neighbouring unit of the same kind in each of its spellings: the value of one operand never depends on how the other is spelled", n_ops),
+                move |ch| {
+                    let (i, sa) = ch.pick(&ops).clone();
+                    let j = (0..UNITS.len()).map(|k| (i + 1 + k) % UNITS.len()).find(|k| UNITS[*k].kind == UNITS[i].kind && *k != i).unwrap();
+                    let (srcb, _) = units::spellings(&UNITS[j]);
+                    let sb = ch.pick(&srcb).clone();
+                    let glue_a = ch.flag();
+                    let (ua, ub) = (&UNITS[i], &UNITS[j]);
+                    let (x, y) = (12.5, 3.0);
+                    let y_in_a = y * ub.factor / ua.factor;
+                    let a = format!("12,5{}{}", if glue_a { "" } else { " " }, sa);
+                    let b = format!("3 {}", sb);
+                    let (text, want) = match ch.choose(3) {
+                        0 => (format!("{} + {}", a, b), unit_val(x + y_in_a, ua)),
+                        1 => (format!("{} - {}", a, b), unit_val(x - y_in_a, ua)),
+                        _ => (format!("{} / {}", a, b), Val::Number(guarded_div(x, y_in_a), Base::Dec)),
+                    };
+                    Some(Case::Line(LineCase::new(text, Expect::Value(want, 1e-9), "arith-spellings")))
+                },
+            ));
+        }
         f
     }
 
